@@ -594,7 +594,7 @@ class _Replay(Exception):
 
 
 BUILTIN_NAMES = {
-    "isinstance", "issubclass", "len", "getattr", "hasattr", "setattr", "tuple", "list", "dict", "set",
+    "isinstance", "issubclass", "len", "getattr", "hasattr", "setattr", "tuple", "list", "dict", "set", "staticmethod", "classmethod", "property",
     "str", "int", "float", "bool", "bytes", "min", "max", "any", "all", "sum", "sorted", "filter", "map",
     "callable", "dir", "print", "super", "Exception", "ValueError", "TypeError", "KeyError", "IndexError",
     "AssertionError", "NotImplementedError", "enumerate", "zip", "range", "iter", "next", "repr", "type",
@@ -1666,6 +1666,7 @@ class Interp:
             return Fn(pf, None)
         if isinstance(base, Cls):
             ci = base.ci
+            self._ensure_init_subclass(ci)
             if attr == "__name__":
                 return Const(ci.name)
             if attr == "__class__":
@@ -1748,12 +1749,44 @@ class Interp:
         and all its instances: evaluate it once per interpreter run and keep it."""
         is_lit = isinstance(expr, (ast.Dict, ast.List, ast.Set)) or (
             isinstance(expr, ast.Call) and isinstance(expr.func, ast.Name) and expr.func.id in ("dict", "list", "set") and not expr.args and not expr.keywords)
-        if not is_lit:
-            return None
         key = ("cls:" + owner.qualname, attr)
-        if key not in self.heap:
-            self.heap[key] = self.eval_in_module(owner.module, expr)
-        return self.heap[key]
+        if is_lit:
+            if key not in self.heap:
+                self.heap[key] = self.eval_in_module(owner.module, expr)
+            return self.heap[key]
+        # other objects made in the class body (a NamedTuple / private strategy object describing the kind, a partial, a
+        # staticmethod, a tuple of such): evaluated once, like the class statement does - when the interpreter can
+        if isinstance(expr, (ast.Call, ast.Tuple)) and self.opts.get("class_level_calls", True):
+            if isinstance(expr, ast.Call):
+                fn_txt = ast.unparse(expr.func)
+                target = self.p.resolve_class(owner.module, expr.func) if isinstance(expr.func, (ast.Name, ast.Attribute)) else None
+                ok = fn_txt.split(".")[-1] in ("partial", "staticmethod", "attrgetter", "itemgetter", "methodcaller", "tuple", "frozenset", "compile", "MappingProxyType") or (target is not None and (getattr(target, "namedtuple_fields", None) is not None or (target.name.startswith("_") and not target.name.startswith("__"))))
+                if not ok:
+                    return None
+            nokey = ("cls-failed:" + owner.qualname, attr)
+            if nokey in self.heap:
+                return None
+            if key not in self.heap:
+                n_ev = len(self.events)
+                try:
+                    fr = Frame(None, owner.module, {k_: v_ for k_, v_ in self._class_scope(owner).items()})
+                    self.heap[key] = self.eval(expr, fr)
+                except Undecided:
+                    self.heap[nokey] = Const(True)
+                    return None
+                finally:
+                    del self.events[n_ev:]
+            return self.heap[key]
+        return None
+
+    def _class_scope(self, owner):
+        """Names bound earlier in the class body that are plain constants (for class-level expressions referring to them)."""
+        out = {}
+        for k, e in owner.class_attrs.items():
+            cv = self.p.const_value(owner.module, e, owner)
+            if cv is not UNKNOWN:
+                out[k] = to_value(cv)
+        return out
 
     def cached_attr(self, base, attr, hint):
         """Plain attribute reads of the same object return the same Term until the attribute
@@ -2685,7 +2718,16 @@ class Interp:
                             raise _Raise(Term("exc", "TypeError", "missing lambda argument"), node)
                         env[n_] = self.eval(la.defaults[di], fr_)
                 return self.eval(node_.body, Frame(fr_.fi, fr_.module, env, parent=fr_, cls=fr_.cls))
+        if isinstance(callee, Obj) and callee.cls is not None:
+            # calling an instance calls its class's __call__
+            cm = callee.cls.find_method("__call__")
+            if cm is not None:
+                callee = Fn(cm, callee)
         kwt = tuple(kwargs.items()) + tuple((None, s) for s in starkw)
+        if isinstance(callee, Fn) and any(d.split("(")[0].split(".")[-1] in ("singledispatch", "singledispatchmethod") for d in getattr(callee.fi, "decorators", [])):
+            chosen = self._dispatch_target(callee, args)
+            if chosen is not None and chosen is not callee.fi:
+                callee = Fn(chosen, callee.self_val, closure=getattr(callee, "closure", None))
         if isinstance(callee, Fn):
             fi = callee.fi
             pol = self.opts.get("inline", lambda fi, node: False)
@@ -2764,13 +2806,101 @@ class Interp:
                 return r
         return t
 
+    def _ensure_init_subclass(self, ci):
+        """__init_subclass__ hooks run when the subclasses are created (at import): before the class-level state of such a
+        hierarchy is consulted for the first time, the hook is run once for every subclass, in definition order."""
+        root = None
+        for k in reversed(ci.mro):
+            if "__init_subclass__" in k.methods:
+                root = k
+                break
+        if root is None:
+            return
+        done = self.__dict__.setdefault("_init_subclass_done", set())
+        if root.qualname in done:
+            return
+        done.add(root.qualname)
+        subs = sorted(root.all_subclasses(), key=lambda s: (s.module.name, s.node.lineno))
+        n_ev = len(self.events)
+        saved = self.opts.get("inline")
+        try:
+            for s in subs:
+                hook = None
+                for k in s.mro[1:]:
+                    if "__init_subclass__" in k.methods:
+                        hook = k.methods["__init_subclass__"]
+                        break
+                if hook is None:
+                    continue
+                kw = {}
+                for name, expr in (s.keywords or {}).items():
+                    if name not in (None, "metaclass"):
+                        kw[name] = self.eval_in_module(s.module, expr)
+                self.opts["inline"] = lambda fi, node, _s=saved: True if fi.name in ("__init_subclass__", "__init__") else (_s(fi, node) if _s else False)
+                self.run_function(Fn(hook, Cls(s)), [], kw)
+        finally:
+            if saved is None:
+                self.opts.pop("inline", None)
+            else:
+                self.opts["inline"] = saved
+            del self.events[n_ev:]
+
+    def _dispatch_target(self, callee, args):
+        """functools.singledispatch(method): the implementation registered for the most specific class in the MRO of the
+        first argument's class; the decorated function itself when none is registered (or the class is not known)."""
+        fi = callee.fi
+        if not args:
+            return None
+        table = (fi.cls.dispatch_impls if fi.cls is not None else fi.module.__dict__.get("dispatch_impls", {})).get(fi.name, [])
+        if fi.cls is not None:
+            # implementations registered in subclasses / base classes of the receiver
+            recv = class_of(callee.self_val) if callee.self_val is not None else None
+            for k in (recv.mro if recv is not None else []):
+                for entry in k.dispatch_impls.get(fi.name, []):
+                    if entry not in table:
+                        table = table + [entry]
+        arg = args[0]
+        aci = arg.cls if isinstance(arg, Obj) else (arg.ci if isinstance(arg, NTup) else class_of(arg))
+        if aci is None:
+            if isinstance(arg, Const) or not table:
+                return fi
+            raise Undecided(f"single dispatch of {fi.name} on a value whose class is not known")
+        best = None
+        for expr, impl in table:
+            try:
+                k = self.eval_in_module(impl.module, expr)
+            except Undecided:
+                continue
+            if isinstance(k, Cls) and k.ci in aci.mro:
+                rank = aci.mro.index(k.ci)
+                if best is None or rank < best[0]:
+                    best = (rank, impl)
+        return best[1] if best is not None else fi
+
     def is_private_class(self, ci) -> bool:
         """Private classes of the repository (single leading underscore) that only bundle behaviour of their user - context
         managers (__enter__/__exit__) - are instantiated like the code that uses them is inlined."""
         if self.opts.get("private_helpers") is False:
             return False
         n = ci.name
-        return n.startswith("_") and not n.startswith("__") and ci.module.name.startswith(("indi.", "indilint_synthetic")) and ci.find_method("__enter__") is not None and ci.find_method("__exit__") is not None
+        if not (n.startswith("_") and not n.startswith("__") and ci.module.name.startswith(("indi.", "indilint_synthetic"))):
+            return False
+        if ci.find_method("__enter__") is not None and ci.find_method("__exit__") is not None:
+            return True
+        # small private strategy / step objects (no public role, not an exception class): created where they are used
+        return self.opts.get("private_classes", True) and not any(b.name.endswith(("Exception", "Error")) for b in ci.mro)
+
+    def _has_public_subclass(self, ci) -> bool:
+        seen, todo = set(), list(ci.subclasses)
+        while todo:
+            s = todo.pop()
+            if id(s) in seen:
+                continue
+            seen.add(id(s))
+            if not s.name.startswith("_"):
+                return True
+            todo.extend(s.subclasses)
+        return False
 
     def is_private_helper(self, fi) -> bool:
         """Private helpers of the repository (single leading underscore: methods, module functions, closures) are part of
@@ -2779,7 +2909,11 @@ class Interp:
         if self.opts.get("private_helpers") is False:
             return False
         n = fi.name
-        if not (n.startswith("_") and not n.startswith("__")):
+        in_private_class = fi.cls is not None and fi.cls.name.startswith("_") and not fi.cls.name.startswith("__") and not (n.startswith("__") and n not in ("__init__", "__call__"))
+        if in_private_class and not n.startswith("_") and self._has_public_subclass(fi.cls):
+            # a private mixin / base class: its public methods are the public interface of the classes that inherit them
+            in_private_class = False
+        if not ((n.startswith("_") and not n.startswith("__")) or in_private_class):
             return False
         if not fi.module.name.startswith(("indi.", "indilint_synthetic")):
             return False
@@ -2850,6 +2984,8 @@ class Interp:
             items = self.concrete_iter(args[0])
             if items is not None and all(isinstance(x, Const) and isinstance(x.v, (int, float)) for x in items) and (len(args) == 1 or (isinstance(args[1], Const) and isinstance(args[1].v, (int, float)))):
                 return Const(sum((x.v for x in items), args[1].v if len(args) == 2 else 0))
+        if name in ("staticmethod", "classmethod") and len(args) == 1 and not kwargs:
+            return args[0] if name == "staticmethod" else Term("classmethod", args[0])
         if name == "divmod" and len(args) == 2 and not kwargs:
             # divmod(a, b) == (a // b, a % b): the same terms (and interval facts) as the two operators
             return Tup([self.binop("FloorDiv", args[0], args[1], node), self.binop("Mod", args[0], args[1], node)])
